@@ -104,6 +104,16 @@ def is_var(name):
         (strip(d)['n'] == name or strip(d)['n'].split('@')[0] == name)
 
 
+def stores_to(name):
+    """The left side of an assignment is the variable `name`, directly or through a pointer out-parameter (`*name = ..`)."""
+    def p(d):
+        d = strip(d)
+        if isinstance(d, dict) and d.get('k') == 'un' and d.get('op') == '*':
+            d = strip(d.get('e'))
+        return is_var(name)(d)
+    return p
+
+
 def is_field(name):
     return lambda d: isinstance(strip(d), dict) and strip(d).get('k') == 'mem' and \
         strip(d)['n'] == name
